@@ -18,9 +18,11 @@ def main():
         rc, out = sh(["git", "apply", "-R", "-"], "/repo", diff)
     else:
         path = what if os.path.exists(what) else os.path.join(ROOT, "seeded", what, "patch.diff")
-        rc, out = sh(["git", "apply", "--3way", path], "/repo")
-        if rc != 0:
-            rc, out = sh(["git", "apply", path], "/repo")
+        rc, out = sh(["git", "apply", path], "/repo")
+        if rc != 0:   # fix commits may have shifted the context: try a 3-way merge, but never keep conflict markers
+            rc, out = sh(["git", "apply", "--3way", path], "/repo")
+            if rc != 0 or "<<<<<<<" in sh(["git", "diff"], "/repo")[1]:
+                rc, out = 1, "patch does not apply to the current tree (conflict): " + out
     if rc != 0:
         print("APPLY FAILED:", out)
         sh(["git", "checkout", "--", "."], "/repo"); sh(["git", "reset", "-q"], "/repo")
